@@ -119,7 +119,7 @@ def r1_pipeline(c):
     c.check("C01.R1", ok, repo.loc(pm, rec), "make_patch/recursive(rb=)", "children are not ordered with the 3rd result of orderer.get_order(<this row>, ...)",
             key_text="rec-ordering")
     rp = rb_.get("_root_pre")
-    c.check("C01.R1", rp is not None and norm(rp) == "_root_pre or pre", repo.loc(pm, rec), "make_patch/recursive(_root_pre=)",
+    c.check("C01.R1", rp is not None and norm(pvm.resolve_alias(rp)) == "_root_pre or pre", repo.loc(pm, rec), "make_patch/recursive(_root_pre=)",
             "root pre not propagated to the recursive call", key_text="rec-root")
 
 
@@ -195,26 +195,49 @@ def r3_blocks(c):
     if lp and isinstance(lp[-1].target, ast.Name):
         itemvar = lp[-1].target.id
 
+    pv3 = Provenance(fn)
+    a1 = ab[0].args[1] if len(ab[0].args) > 1 else kwarg(ab[0], "subtree")
+    chname = norm(a1) if a1 is not None else "children"
+
     def ren(s):
+        s = s.replace('"', "'")
         for k in ("children", "parent", "direct", "force_commit"):
-            for q in ('"', "'"):
-                if s == f"{itemvar}[{q}{k}{q}]":
-                    return k
+            if s == f"{itemvar}['{k}']" or s in (f"attrs.get('{k}', False)", f"attrs.get('{k}')", f"attrs['{k}']"):
+                return k
+        if s == chname:
+            return "children"
         return s
     env = G.GuardEnv(rename=ren)
     spec = G.And(G.Atom("direct"), G.Or(G.Atom("children"), G.Atom("parent")))
-    f = gm.formula(ab[0], env)
-    c.check("C01.R3", G.equivalent(f, spec), repo.loc(m, ab[0]), "make_patch/add_block",
-            f"add_block is taken under {G.show(f)}, expected direct ∧ (children ∨ parent): empty parent blocks or children of a block would be lost/misplaced",
-            key_text="add_block-guard")
     plain = [x for x in ad if not (x.args and isinstance(x.args[0], ast.Constant) and x.args[0].value == "commit")]
     commit = [x for x in ad if x.args and isinstance(x.args[0], ast.Constant) and x.args[0].value == "commit"]
+    # the decision is stated relative to "this row is emitted at all": conditions that enclose both calls alike (the one-pass form of make_patch decides inside the
+    # `direct is not None` / force-commit-skip context) are factored out; they may not mention the deciding fields themselves
+    ctx = G.T
     if plain:
-        f2 = gm.formula(plain[0], env)
-        c.check("C01.R3", G.equivalent(f2, G.Not(spec)), repo.loc(m, plain[0]), "make_patch/add", f"plain add taken under {G.show(f2)}, expected the complement of the add_block condition",
+        ca, cb = gm.of(ab[0]), gm.of(plain[0])
+        common = []
+        for (t1, p1), (t2, p2) in zip(ca, cb):
+            if t1 is t2 and p1 == p2:
+                common.append((t1, p1))
+            else:
+                break
+        parts = []
+        for t_, pol in common:
+            g_ = G.formula(t_, env)
+            parts.append(g_ if pol else G.Not(g_))
+        ctx = G.And(*parts) if parts else G.T
+        if {"direct", "children", "parent"} & set(G.atoms(ctx)):
+            ctx = G.T
+    f = gm.formula(ab[0], env, alias=True)
+    c.check("C01.R3", G.equivalent(f, G.And(ctx, spec)), repo.loc(m, ab[0]), "make_patch/add_block",
+            f"add_block is taken under {G.show(f)}, expected direct ∧ (children ∨ parent): empty parent blocks or children of a block would be lost/misplaced",
+            key_text="add_block-guard")
+    if plain:
+        f2 = gm.formula(plain[0], env, alias=True)
+        c.check("C01.R3", G.equivalent(f2, G.And(ctx, G.Not(spec))), repo.loc(m, plain[0]), "make_patch/add", f"plain add taken under {G.show(f2)}, expected the complement of the add_block condition",
                 key_text="add-guard")
     # children handed over
-    a1 = ab[0].args[1] if len(ab[0].args) > 1 else kwarg(ab[0], "subtree")
     c.check("C01.R3", a1 is not None and ren(norm(a1)) == "children", repo.loc(m, ab[0]), "make_patch/add_block(children)",
             "the subtree given to add_block is not the item's recursive patch", key_text="add_block-children")
     for x in commit:
@@ -229,6 +252,9 @@ def r3_blocks(c):
             for k, v in zip(d.keys, d.values):
                 if isinstance(k, ast.Constant) and k.value == "children" and rec and any(n is rec[0] for n in ast.walk(v)):
                     ok = True
+    if not ok and isinstance(a1, ast.Name) and rec:
+        # one-pass form: the local handed to add_block is defined by the recursive call (its other definition being the empty tree)
+        ok = any(d.value is not None and any(n is rec[0] for n in ast.walk(d.value)) for d in pv3.rd.defs(a1))
     c.check("C01.R3", ok, repo.loc(m, fn), "make_patch/item.children", "item['children'] is not the recursive make_patch result", key_text="children-rec")
 
 
